@@ -106,8 +106,36 @@ def batch(wid, prop, checks):
         trial(sid, checks)
 
 
+def summary():
+    rows = []
+    for sid in sorted(os.listdir(os.path.join(VERIF, "seeded"))):
+        mp = os.path.join(VERIF, "seeded", sid, "meta.json")
+        if not os.path.exists(mp):
+            continue
+        m = json.load(open(mp))
+        res = m.get("check_results", {})
+        caught = [p for p, r in res.items() if r.get("caught")]
+        missed = [p for p, r in res.items() if not r.get("caught")]
+        what = (m.get("summary") or m.get("needs_to_manifest", "").strip().split("\n")[0])[:160].replace("|", "/")
+        first = ""
+        for p in caught:
+            w = res[p].get("first_witnesses") or []
+            if w:
+                first = w[0][:150].replace("|", "/")
+                break
+        rows.append("| %s | %s | %s | %s | %s | %s |" % (sid, m.get("property"), ", ".join(m.get("files_changed") or [])[:70], what, ", ".join(caught) or "-", ", ".join(missed) or "-"))
+    out = ["# Seeded breaks: which checks catch which changes", "",
+           "Every row is a change to johnmcfarlane/cnl produced independently (sub-agent given only the property text and a scratch worktree), confirmed to break the property (demo fails with / passes without), to compile and to pass the unedited suite.",
+           "`caught by` lists the quick checks that exit 1 with a VIOLATION line when the patch is applied to /repo; details per mutant in `<id>/meta.json`.", "",
+           "| id | property | files | what it needs | caught by | run but silent |", "|---|---|---|---|---|---|"] + rows
+    open(os.path.join(VERIF, "seeded", "SUMMARY.md"), "w").write("\n".join(out) + "\n")
+    print("\n".join(out[-len(rows):]))
+
+
 if __name__ == "__main__":
-    if sys.argv[1] == "batch":
+    if sys.argv[1] == "summary":
+        summary()
+    elif sys.argv[1] == "batch":
         batch(sys.argv[2], sys.argv[3], sys.argv[4:])
     elif sys.argv[1] == "verify":
         print(json.dumps(verify(sys.argv[2], sys.argv[3]), indent=1))
